@@ -29,7 +29,7 @@ CHECKS = {
         tech='Lean 4 proof + AST translator + scripted-RNG exact differential', ref='DESIGN.md §3 C14'),
 }
 
-READY = ['C14', 'C16']
+READY = ['C14', 'C15', 'C16']
 
 PENDING_REASON = 'check under construction in this build round; not yet registered (see DESIGN.md §6 build order)'
 
